@@ -27,7 +27,6 @@ type half struct {
 	buf      []byte
 	wclosed  bool // writer closed: reader sees EOF after draining
 	rclosed  bool // reader closed: writer gets io.ErrClosedPipe
-	expired  bool // reader's deadline forced/elapsed
 	deadline time.Time
 	timer    *time.Timer
 	total    int64 // bytes ever written
@@ -58,7 +57,7 @@ func (h *half) read(p []byte, self *Conn) (int, error) {
 		if h.rclosed {
 			return 0, io.ErrClosedPipe
 		}
-		if self.isExpired() || h.expired || (!h.deadline.IsZero() && !time.Now().Before(h.deadline)) {
+		if self.isExpired() || (!h.deadline.IsZero() && !time.Now().Before(h.deadline)) {
 			return 0, os.ErrDeadlineExceeded
 		}
 		if len(h.buf) > 0 {
